@@ -70,6 +70,24 @@ def stream_case(rng):
     return {"steps": steps, "env": gen.ENV}
 
 
+def list_merge_multi_case(rng):
+    """several `- $merge: ref` entries in one list: each is resolved, in order, and ANY failing entry (dangling path, pattern
+    matching no document / several documents, a target that is not a list) fails the evaluation - first, middle or last"""
+    good = [["a"], "a", "b.l", [{"kind": "T"}, "l"]]
+    bad = ["nosuch", "a.zz", [{"kind": "nosuch"}, "l"], "s", [{"kind": "T"}, "nosuch"], "b"]
+    n = rng.randint(2, 4)
+    entries = [{"$merge": rng.choice(good)} for _ in range(n)]
+    if rng.random() < 0.7:
+        entries[rng.randrange(n)] = {"$merge": rng.choice(bad)}
+    lst = entries + rng.choice([[], ["own"], [{"o": 1}]])
+    rng.shuffle(lst) if rng.random() < 0.3 else None
+    doc = {"a": [1, {"x": 1}], "b": {"l": ["p", "q"]}, "s": "scalar", "zig": lst}
+    other = {"kind": "T", "l": [{"t": 1}]}
+    docs = [doc, other] if rng.random() < 0.5 else [other, doc]
+    steps = [{"merge": {"id": f"D{i}", "parents": [], "data": d}} for i, d in enumerate(docs)] + [{"docs": True}, {"outdocs": True}]
+    return {"steps": steps, "env": gen.ENV}
+
+
 def whole_doc_case(rng):
     """a WHOLE other document as the referenced subtree ({$match: pat} without $path), where that document evaluates
     references of its own: inside the host they resolve against the HOST's document, inside the target against the
@@ -142,6 +160,8 @@ def gen_case(rng):
         return dotted_key_case(rng)
     if rng.random() < 0.06:
         return whole_doc_case(rng)
+    if rng.random() < 0.05:
+        return list_merge_multi_case(rng)
     if rng.random() < 0.3:
         return stream_case(rng)
     doc = gen.eval_doc(rng, W, depth=rng.randint(2, 4), nfeat=(1, 3))
